@@ -1,6 +1,7 @@
 import Qsx.Model.Wire
 import Qsx.Model.Driver
 import Qsx.Model.Num
+import Qsx.Model.BasisFile
 open Qsx
 
 def hexVal (c : Char) : Option Nat :=
@@ -85,6 +86,20 @@ def answer (cx : Ctx) (toks : List String) : Ctx × List String :=
       match v with
       | .none => (cx, [s!"n {n}", "val none"])
       | .ok q => (cx, [s!"n {n}", s!"val {fmtRat cx q}"])
+  | ["brt", free, cs, rs] =>
+    -- basis-file round trip: free bits (string of 0/1), cstat, rstat
+    let fl := if free == "-" then [] else free.toList.map (· == '1')
+    let cl := if cs == "-" then [] else cs.toList.map Char.toNat
+    let rl := if rs == "-" then [] else rs.toList.map Char.toNat
+    let showLine : Qsx.BasisFile.Line → String
+      | .XL c r => s!"XL:{c}:{r}" | .XU c r => s!"XU:{c}:{r}" | .UL c => s!"UL:{c}" | .LL c => s!"LL:{c}"
+    match Qsx.BasisFile.encode cl rl with
+    | none => (cx, ["enc fail"])
+    | some ls =>
+      let d := Qsx.BasisFile.decode fl rl.length ls
+      (cx, ["enc ok", "lines " ++ toString ls.length ++ ls.foldl (fun s l => s ++ " " ++ showLine l) "",
+            s!"dec {fmtStat d.1.toArray} {fmtStat d.2.toArray}",
+            s!"norm {fmtStat (Qsx.BasisFile.normalizeC fl cl).toArray} {fmtStat (Qsx.BasisFile.normalizeR rl).toArray}"])
   | "tointernal" :: rest =>
     let r : Option (List String) := (do
       let L ← pLP cx
